@@ -16,3 +16,5 @@ def run(ctx):
             ops_nf.case_from_lists(ctx, Subject(ctx, p_missing=0.0, allow_hidden=False))
         if i % 4 == 1:
             ops_nf.case_new_nest_setitem(ctx)
+        if i % 25 == 0:
+            ops_nf.case_from_lists_empty(ctx)
